@@ -18,7 +18,7 @@ use std::collections::HashMap;
 pub const PROP: PropDef = PropDef {
     id: "C15",
     parts,
-    rule: "every sequence (length <= 3 quick / 4 thorough for all 16 parameter/config combinations, <= 4 / 5 for one combination) over {add_update_check(a), add_ping(a), add_event(a,e), session_id, request_id} with a in 4 app values (two sharing an id with different cohort/version/fingerprint/extras) and e in 2 events, x 8 request parameter combinations x 2 configurations; after EVERY operation the builder is built twice and compared (method, URI, headers, body as JSON value with exact array order) with an independent encoder folding the operation history; a second part enumerates every event type x result x error code x optional field subset; non-trivial = at least one app in the request",
+    rule: "every sequence (length <= 3 quick / 4 thorough for all 16 parameter/config combinations, <= 4 / 5 for one combination) over {add_update_check(a), add_ping(a), add_event(a,e), session_id, request_id} with a in 4 app values (two sharing an id with different cohort/version/fingerprint/extras, one whose id differs from theirs only in letter case) and e in 2 events, x 8 request parameter combinations x 2 configurations; after EVERY operation the builder is built twice and compared (method, URI, headers, body as JSON value with exact array order) with an independent encoder folding the operation history; a second part enumerates every event type x result x error code x optional field subset; non-trivial = at least one app in the request",
     assumptions: &["extra-field keys that collide with protocol attribute names are not generated", "the harness constructs GUIDs with GUID::new() and reads them back through their serialisation"],
 };
 
@@ -48,7 +48,7 @@ fn apps() -> Vec<App> {
             .user_counting(UserCounting::ClientRegulatedByDate(Some(0)))
             .extra_fields(HashMap::from([("k1".to_string(), "v1".to_string()), ("k2".to_string(), "".to_string())]))
             .build(),
-        App::builder().id("app-3").version([u32::MAX, 0, 0, 0]).build(),
+        App::builder().id("APP-1").version([u32::MAX, 0, 0, 0]).build(), // differs from "app-1" only in letter case: a different app
     ]
 }
 
@@ -58,7 +58,7 @@ fn ref_app(i: usize) -> Value {
         0 => json!({"appid": "app-1", "version": "1.2.3.4", "cohort": "c1"}),
         1 => json!({"appid": "app-1", "version": "9.0.0.0", "fp": "fp-9", "cohorthint": "h9", "cohortname": "", "k": "v", "_uc": 7}),
         2 => json!({"appid": "app-2", "version": "0.0.0.1", "cohort": "i2", "cohorthint": "h2", "cohortname": "n2", "k1": "v1", "k2": "", "_uc": 0}),
-        _ => json!({"appid": "app-3", "version": "4294967295.0.0.0"}),
+        _ => json!({"appid": "APP-1", "version": "4294967295.0.0.0"}),
     }
 }
 
